@@ -668,6 +668,336 @@ Proof.
   - intros Hwf. destruct (start_wf s0 t miss argv H Ha Hwf) as (s' & E & _). exists s'. exact E.
 Qed.
 
+(* ---------------- exactly when the registration pass refuses a table ---------------- *)
+Lemma fm_app (a b : table) : forall i s,
+  fm (a ++ b) i s = match fm a i s with Some x => Some x | None => fm b (i + length a) s end.
+Proof.
+  induction a as [|[[n h]|] a IH]; intros i s; cbn [app fm length].
+  - rewrite Nat.add_0_r. reflexivity.
+  - assert (fm (a ++ b) (S i) s = match fm a (S i) s with Some x => Some x | None => fm b (i + S (length a)) s end) as E
+      by (rewrite IH; replace (S i + length a) with (i + S (length a)) by lia; reflexivity).
+    destruct (strip_prefix n s) as [[|c v]|]; [reflexivity | | exact E].
+    destruct (N.eqb c EQC); [reflexivity | exact E].
+  - rewrite IH. replace (S i + length a) with (i + S (length a)) by lia. reflexivity.
+Qed.
+
+Lemma fm_nones k : forall i s, fm (repeat None k) i s = None.
+Proof. induction k as [|k IH]; intros i s; [reflexivity|]. cbn [repeat fm]. apply IH. Qed.
+
+Lemma fm_done_none (done : table) k os :
+  fm (done ++ None :: repeat None k) 0 os = None <-> first_match done os = None.
+Proof.
+  rewrite fm_app, (first_match_fm done 0 os).
+  destruct (fm done 0 os) as [[[[j n] h] v]|]; [split; discriminate|].
+  cbn [fm]. rewrite fm_nones. split; reflexivity.
+Qed.
+
+Lemma register_all_exact (rem : table) : forall (done : table) s,
+  g_optreset s = false -> g_init s = false -> g_opts s = Some (done ++ repeat None (length rem)) ->
+  g_default s = S (length (done ++ rem)) ->
+  names_nn done -> names_nn rem ->
+  register_all s rem (length done) =
+  if acceptb done rem then Ok (set_opts (Some (done ++ rem)) s) else AssertFail.
+Proof.
+  induction rem as [|[[os h]|] rem IH]; intros done s H1 H2 H3 H4 Hd Hr.
+  - cbn [register_all acceptb]. rewrite app_nil_r.
+    cbn [length repeat] in H3. rewrite app_nil_r in H3. destruct s. cbn in *. subst. reflexivity.
+  - cbn [register_all acceptb]. cbn [length repeat] in H3.
+    inversion Hr as [|? ? Hos Hr']; subst.
+    rewrite (register_opt_outcome s done (repeat None (length rem)) os h _ H1 H2 H3 H4 Hd (names_nn_repeat _) Hos).
+    destruct (valid_name os) eqn:Hv; cbn [negb andb]; [|reflexivity].
+    destruct (fm (done ++ None :: repeat None (length rem)) 0 os) as [[[[j ?] ?] ?]|] eqn:Hfm.
+    + assert (first_match done os <> None) as Hne
+        by (intros Efm; apply (fm_done_none done (length rem) os) in Efm; congruence).
+      destruct (first_match done os); [|congruence]. cbn [is_some negb andb].
+      apply fm_lt in Hfm.
+      match goal with |- context [?a =? ?x] => destruct (a =? x) eqn:Ej end; [|reflexivity].
+      exfalso. apply Nat.eqb_eq in Ej. rewrite app_length in Hfm, Ej. cbn [length] in Hfm, Ej.
+      rewrite repeat_length in Hfm. unfold slot, table, str in *. lia.
+    + apply fm_done_none in Hfm. rewrite Hfm. cbn [is_some negb andb bind].
+      match goal with |- register_all ?x _ _ = _ => set (s1 := x) end.
+      assert (g_optreset s1 = false) as A1 by exact H1.
+      assert (g_init s1 = false) as A2 by exact H2.
+      assert (g_opts s1 = Some ((done ++ [Some (os, h)]) ++ repeat None (length rem))) as A3
+        by (rewrite <- app_assoc; reflexivity).
+      assert (g_default s1 = S (length ((done ++ [Some (os, h)]) ++ rem))) as A4
+        by (change (g_default s1) with (g_default s); rewrite H4, !app_length; cbn [length]; lia).
+      assert (names_nn (done ++ [Some (os, h)])) as A5
+        by (apply names_nn_app; split; [exact Hd | constructor; [exact Hos | constructor]]).
+      pose proof (IH (done ++ [Some (os, h)]) s1 A1 A2 A3 A4 A5 Hr') as E.
+      rewrite app_length in E; cbn [length] in E; replace (length done + 1) with (S (length done)) in E by lia.
+      rewrite E, <- app_assoc. reflexivity.
+  - cbn [register_all acceptb]. cbn [length repeat] in H3. inversion Hr as [|? ? _ Hr']; subst.
+    assert (g_opts s = Some ((done ++ [None]) ++ repeat None (length rem))) as A3
+      by (rewrite <- app_assoc; exact H3).
+    assert (g_default s = S (length ((done ++ [None]) ++ rem))) as A4
+      by (rewrite H4, !app_length; cbn [length]; lia).
+    assert (names_nn (done ++ [None])) as A5
+      by (apply names_nn_app; split; [exact Hd | constructor; [exact I | constructor]]).
+    pose proof (IH (done ++ [None]) s H1 H2 A3 A4 A5 Hr') as E.
+    rewrite app_length in E; cbn [length] in E; replace (length done + 1) with (S (length done)) in E by lia.
+    rewrite E, <- app_assoc. reflexivity.
+Qed.
+
+(* the first call and the registration pass abort (DIE / failed assert) exactly on the tables
+   that are not accepted *)
+Lemma start_assert_iff s0 (t : table) miss argv : g_optreset s0 = true -> Forall no_nul argv -> names_nn t ->
+  (start s0 t miss argv = AssertFail <-> acceptb [] t = false).
+Proof.
+  intros H Ha Hn. unfold start. rewrite (getopt_first s0 argv H Ha). cbn [bind]. unfold setup.
+  set (s1 := set_default (S (length t)) (set_missing (S (length t))
+               (set_opts (Some (repeat None (length t))) (after_reset s0)))).
+  assert (setrange (after_reset s0) (length t) = Ok s1) as -> by reflexivity. cbn [bind].
+  assert (names_nn []) as Hnil by constructor.
+  pose proof (register_all_exact t [] s1 eq_refl eq_refl eq_refl eq_refl Hnil Hn) as E.
+  cbn [length app] in E. rewrite E. destruct (acceptb [] t); cbn [bind].
+  - destruct miss; cbn [register_missing]; prj; cbn [bind]; split; discriminate.
+  - split; reflexivity.
+Qed.
+
+(* reg_accepts written out: every name is "-x" / "--long", and for every label, searchopt's
+   first-prefix-match finds nothing among the labels on earlier lines *)
+Lemma acceptb_spec (rem : table) : forall done,
+  acceptb done rem = true <->
+  (names_valid rem /\
+   forall pre os h rest, rem = pre ++ Some (os, h) :: rest -> first_match (done ++ pre) os = None).
+Proof.
+  induction rem as [|[[os h]|] rem IH]; intros done; cbn [acceptb].
+  - split; [|reflexivity]. intros _. split; [constructor|]. intros [|? ?] ? ? ? E; discriminate.
+  - rewrite !andb_true_iff, IH. split.
+    + intros [[Hv Hf] [Hvr Hall]]. split; [constructor; assumption|].
+      intros [|x pre] os' h' rest E; cbn [app] in E; inversion E; subst.
+      * rewrite app_nil_r. destruct (first_match done os'); [discriminate | reflexivity].
+      * specialize (Hall pre os' h' rest eq_refl). rewrite <- app_assoc in Hall. exact Hall.
+    + intros [Hv Hall]. inversion Hv as [|? ? Hv1 Hv2]; subst. split; [split|split].
+      * exact Hv1.
+      * specialize (Hall [] os h rem eq_refl). rewrite app_nil_r in Hall. rewrite Hall. reflexivity.
+      * exact Hv2.
+      * intros pre os' h' rest ->. rewrite <- app_assoc. apply (Hall (Some (os, h) :: pre) os' h' rest). reflexivity.
+  - rewrite IH. split.
+    + intros [Hvr Hall]. split; [constructor; [exact I | exact Hvr]|].
+      intros [|x pre] os' h' rest E; cbn [app] in E; inversion E; subst.
+      specialize (Hall pre os' h' rest eq_refl). rewrite <- app_assoc in Hall. exact Hall.
+    + intros [Hv Hall]. inversion Hv as [|? ? _ Hv2]; subst. split; [exact Hv2|].
+      intros pre os' h' rest ->. rewrite <- app_assoc. apply (Hall (None :: pre) os' h' rest). reflexivity.
+Qed.
+
+Theorem reg_accepts_spec (t : table) :
+  reg_accepts t <->
+  (names_valid t /\ forall pre os h rest, t = pre ++ Some (os, h) :: rest -> first_match pre os = None).
+Proof. unfold reg_accepts. apply (acceptb_spec t []). Qed.
+
+Theorem wf_table_accepted (t : table) : wf_table t -> reg_accepts t.
+Proof.
+  intros Hwf. pose proof Hwf as [Hok _]. unfold reg_accepts.
+  destruct (start_wf init_state t None [] eq_refl (Forall_nil _) Hwf) as (s' & E & _).
+  destruct (acceptb [] t) eqn:Ea; [reflexivity|].
+  apply (start_assert_iff init_state t None [] eq_refl (Forall_nil _) (names_ok_nn t Hok)) in Ea. congruence.
+Qed.
+
+(* the run theorem with the abort case stated exactly *)
+Theorem run_coded_exact s0 (t : table) miss (argv : list str) :
+  g_optreset s0 = true -> names_nn t -> wf_miss t miss -> Forall no_nul argv ->
+  (reg_accepts t -> exists s', run_from s0 t miss argv = Ok (spec_coded t (is_some miss) argv, s')) /\
+  (~ reg_accepts t -> run_from s0 t miss argv = AssertFail).
+Proof.
+  intros H Hn Hm Ha. pose proof (start_assert_iff s0 t miss argv H Ha Hn) as Hiff. unfold reg_accepts, run_from.
+  destruct (start_outcome s0 t miss argv H Ha Hn) as [E | (s1 & E & Hr & Hi & Hp & Hv)]; rewrite E; split; intros Hacc.
+  - apply Hiff in E. congruence.
+  - reflexivity.
+  - cbn [bind]. apply (run_after_start s1 t miss argv Hn Hv Hm Ha Hr Hi Hp).
+  - exfalso. apply Hacc. destruct (acceptb [] t); [reflexivity|].
+    destruct Hiff as [_ Hiff]. specialize (Hiff eq_refl). congruence.
+Qed.
+
+Theorem getopt_no_fault_exact s (t : table) miss (argv : list str) :
+  names_nn t -> wf_miss t miss -> Forall no_nul argv ->
+  run_from (set_optreset true s) t miss argv <> Fault /\
+  run_from (set_optreset true s) t miss argv <> OutOfFuel /\
+  (run_from (set_optreset true s) t miss argv = AssertFail <-> ~ reg_accepts t).
+Proof.
+  intros Hn Hm Ha.
+  destruct (run_coded_exact (set_optreset true s) t miss argv eq_refl Hn Hm Ha) as [Hy Hno].
+  assert ({reg_accepts t} + {~ reg_accepts t}) as [Hacc | Hacc]
+    by (unfold reg_accepts; destruct (acceptb [] t); [left; reflexivity | right; discriminate]).
+  - destruct (Hy Hacc) as [s' E]. rewrite E. split; [discriminate|]. split; [discriminate|].
+    split; [discriminate | intros Hc; contradiction].
+  - rewrite (Hno Hacc). split; [discriminate|]. split; [discriminate|]. split; [intros _; exact Hacc | reflexivity].
+Qed.
+
+(* ---------------- the indexing pass of a compiled GETOPT_SWITCH, for every source layout ---------------- *)
+Lemma register_opt_set_missing s m os ln h :
+  register_opt (set_missing m s) os ln h = (let* s1 := register_opt s os ln h in Ok (set_missing m s1)).
+Proof.
+  unfold register_opt, searchopt. prj. destruct (g_optreset s); [reflexivity|]. destruct (g_init s); [reflexivity|].
+  destruct (g_opts s) as [t|]; [|reflexivity]. destruct (nth_error t ln) as [[?|]|]; try reflexivity.
+  destruct (negb (valid_name os)); [reflexivity|].
+  destruct (searchopt_from t 0 (cstr os) (g_default s)) as [f| | |]; cbn [bind]; try reflexivity.
+  destruct (negb (f =? g_default s)); reflexivity.
+Qed.
+
+Lemma register_all_set_missing (t : table) : forall s m ln,
+  register_all (set_missing m s) t ln = (let* s1 := register_all s t ln in Ok (set_missing m s1)).
+Proof.
+  induction t as [|[[os h]|] t IH]; intros s m ln; cbn [register_all].
+  - reflexivity.
+  - rewrite register_opt_set_missing. destruct (register_opt s os ln h); cbn [bind]; try reflexivity. apply IH.
+  - apply IH.
+Qed.
+
+Lemma register_opt_keeps s os ln h s' : register_opt s os ln h = Ok s' ->
+  g_optreset s' = g_optreset s /\ g_init s' = g_init s.
+Proof.
+  unfold register_opt. destruct (g_optreset s) eqn:R1; [discriminate|]. destruct (g_init s) eqn:R2; [discriminate|].
+  destruct (g_opts s) as [t|]; [|discriminate]. destruct (nth_error t ln) as [[?|]|]; try discriminate.
+  destruct (negb (valid_name os)); [discriminate|].
+  destruct (searchopt s (cstr os)) as [f| | |]; cbn [bind]; try discriminate.
+  destruct (negb (f =? g_default s)); [discriminate|]. intros E. inversion E; subst. prj. split; assumption.
+Qed.
+
+Lemma register_all_keeps (t : table) : forall s ln s', register_all s t ln = Ok s' ->
+  g_optreset s' = g_optreset s /\ g_init s' = g_init s.
+Proof.
+  induction t as [|[[os h]|] t IH]; intros s ln s' E; cbn [register_all] in E.
+  - inversion E; subst. split; reflexivity.
+  - destruct (register_opt s os ln h) as [s1| | |] eqn:E1; cbn [bind] in E; try discriminate.
+    apply register_opt_keeps in E1. apply IH in E. destruct E1, E. split; congruence.
+  - apply (IH _ _ _ E).
+Qed.
+
+Definition apply_miss (m : option nat) (s : gst) : gst :=
+  match m with Some ln => set_missing ln s | None => s end.
+
+(* once getopt_setrange has run: the probes of the lines are the registrations in line order *)
+Lemma probes_registered D (lay : layout) : forall s ln, g_optreset s = false -> g_init s = false ->
+  probes D (s, true) ln lay =
+  (let* s1 := register_all s (table_of lay) ln in Ok (apply_miss (miss_from lay ln) s1, true)).
+Proof.
+  induction lay as [|[|os h|] lay IH]; intros s ln H1 H2; cbn [probes probe table_of map register_all miss_from bind].
+  - reflexivity.
+  - fold (table_of lay). rewrite (IH s (S ln) H1 H2).
+    destruct (register_all s (table_of lay) (S ln)); cbn [bind]; try reflexivity.
+    destruct (miss_from lay (S ln)); reflexivity.
+  - fold (table_of lay). destruct (register_opt s os ln h) as [s1| | |] eqn:E1; cbn [bind]; try reflexivity.
+    apply register_opt_keeps in E1. destruct E1 as [K1 K2].
+    rewrite (IH s1 (S ln)) by congruence.
+    destruct (register_all s1 (table_of lay) (S ln)); cbn [bind]; try reflexivity.
+    destruct (miss_from lay (S ln)); reflexivity.
+  - fold (table_of lay). unfold register_missing. rewrite H1, H2. cbn [bind].
+    rewrite (IH (set_missing ln s) (S ln) H1 H2). rewrite register_all_set_missing.
+    destruct (register_all s (table_of lay) (S ln)); cbn [bind]; try reflexivity.
+    destruct (miss_from lay (S ln)); reflexivity.
+Qed.
+
+(* the pass as compiled = getopt_setrange(line offset of GETOPT_DEFAULT), one registration per label
+   in line order (slot = line offset, slot 0 = the GETOPT_SWITCH line included), initialized = 1 *)
+Theorem index_pass_eq_setup s (lay : layout) :
+  index_pass s lay = setup s (table_of lay) (miss_of lay).
+Proof.
+  unfold index_pass, index_pass_gen, setup, miss_of. cbn [probe]. unfold table_of at 1. rewrite map_length.
+  destruct (setrange s (length lay)) as [g| | |] eqn:Es; cbn [bind]; try reflexivity.
+  assert (g_optreset g = false /\ g_init g = false) as [G1 G2].
+  { unfold setrange in Es. destruct (g_optreset s) eqn:Eo; [discriminate|]. destruct (g_init s) eqn:Ei; [discriminate|].
+    inversion Es; subst. prj. split; [exact Eo | exact Ei]. }
+  rewrite (probes_registered (length lay) lay g 0 G1 G2).
+  destruct (register_all g (table_of lay) 0) as [s1| | |] eqn:Er; cbn [bind]; try reflexivity.
+  apply register_all_keeps in Er. destruct Er as [K1 K2].
+  destruct (miss_from lay 0); cbn [apply_miss]; [|reflexivity].
+  unfold register_missing. rewrite K1, K2, G1, G2. reflexivity.
+Qed.
+
+Lemma start_switch_eq s0 (lay : layout) argv :
+  start_switch s0 lay argv = start s0 (table_of lay) (miss_of lay) argv.
+Proof.
+  unfold start_switch, start. destruct (getopt s0 argv) as [[s1 r]| | |]; cbn [bind]; try reflexivity.
+  destruct r; try reflexivity. apply index_pass_eq_setup.
+Qed.
+
+Theorem run_switch_from_eq s0 (lay : layout) argv :
+  run_switch_from s0 lay argv = run_from s0 (table_of lay) (miss_of lay) argv.
+Proof. unfold run_switch_from, run_from. rewrite start_switch_eq. reflexivity. Qed.
+
+Theorem run_switch_eq (lay : layout) argv :
+  run_switch lay argv = run_model (table_of lay) (miss_of lay) argv.
+Proof. unfold run_switch, run_model. rewrite run_switch_from_eq. reflexivity. Qed.
+
+(* GETOPT_MISSING_ARG sits on a line of its own, so its slot is free *)
+Lemma miss_from_free (lay : layout) : forall ln,
+  match miss_from lay ln with
+  | Some m => ln <= m /\ nth_error (table_of lay) (m - ln) = Some None
+  | None => True
+  end.
+Proof.
+  induction lay as [|l lay IH]; intros ln; cbn [miss_from]; [exact I|].
+  specialize (IH (S ln)). destruct (miss_from lay (S ln)) as [m|].
+  - destruct IH as [Hle Hn]. split; [lia|]. replace (m - ln) with (S (m - S ln)) by lia. exact Hn.
+  - destruct l; try exact I. split; [lia|]. rewrite Nat.sub_diag. reflexivity.
+Qed.
+
+Lemma wf_miss_of (lay : layout) : wf_miss (table_of lay) (miss_of lay).
+Proof.
+  unfold wf_miss, miss_of. pose proof (miss_from_free lay 0) as H.
+  destruct (miss_from lay 0) as [m|]; [|exact I]. destruct H as [_ H]. rewrite Nat.sub_0_r in H. exact H.
+Qed.
+
+(* M1 for compiled switch statements: whatever the source layout of the labels -- first label on
+   the GETOPT_SWITCH line (slot 0), blank lines, GETOPT_MISSING_ARG first, last or absent -- the run
+   equals the reference parser for the label set *)
+Theorem switch_eq_spec (lay : layout) (argv : list str) :
+  wf_table (table_of lay) -> Forall no_nul argv ->
+  run_switch lay argv = Ok (spec (table_of lay) (is_some (miss_of lay)) argv).
+Proof.
+  intros Hwf Ha. rewrite run_switch_eq. apply getopt_eq_spec; [exact Hwf | apply wf_miss_of | exact Ha].
+Qed.
+
+Lemma spec_lookup_ext (t1 t2 : table) m argv :
+  (forall n, lookup t1 n = lookup t2 n) -> spec t1 m argv = spec t2 m argv.
+Proof.
+  intros H. unfold spec. apply (spec_from_ext _ _ _ _ m) with (n := length (tl argv)).
+  - intros c. unfold doc_short. rewrite H. reflexivity.
+  - intros b. unfold doc_long. destruct (split_eq b) as [nm v]. rewrite H. reflexivity.
+  - lia.
+Qed.
+
+Theorem switch_no_fault s (lay : layout) (argv : list str) :
+  names_nn (table_of lay) -> Forall no_nul argv ->
+  run_switch_from (set_optreset true s) lay argv <> Fault /\
+  run_switch_from (set_optreset true s) lay argv <> OutOfFuel /\
+  (run_switch_from (set_optreset true s) lay argv = AssertFail <-> ~ reg_accepts (table_of lay)).
+Proof.
+  intros Hn Ha. rewrite run_switch_from_eq. apply getopt_no_fault_exact; [exact Hn | apply wf_miss_of | exact Ha].
+Qed.
+
+(* the result depends on the set of labels only, not on the lines they are written on *)
+Theorem switch_layout_independent (l1 l2 : layout) (argv : list str) :
+  wf_table (table_of l1) -> wf_table (table_of l2) ->
+  (forall n, lookup (table_of l1) n = lookup (table_of l2) n) ->
+  is_some (miss_of l1) = is_some (miss_of l2) -> Forall no_nul argv ->
+  run_switch l1 argv = run_switch l2 argv.
+Proof.
+  intros W1 W2 Hl Hm Ha. rewrite (switch_eq_spec l1 argv W1 Ha), (switch_eq_spec l2 argv W2 Ha), Hm.
+  rewrite (spec_lookup_ext _ _ _ _ Hl). reflexivity.
+Qed.
+
+(* what the first probe (getopt_ln = getopt_ln_min - 1) is for: started on the GETOPT_SWITCH line
+   itself, a label on that line is registered before getopt_setrange has allocated the table *)
+Lemma first_probe_needed s os h (lay : layout) : g_opts s = None ->
+  index_pass_gen false s (LOpt os h :: lay) = AssertFail.
+Proof.
+  intros H. unfold index_pass_gen. cbn [bind probes probe]. unfold register_opt. rewrite H.
+  destruct (g_optreset s); [reflexivity|]. destruct (g_init s); reflexivity.
+Qed.
+
+(* among tables whose long names contain no '=', accepted = well-formed *)
+Theorem reg_accepts_wf (t : table) : names_nn t -> Forall eq_free (names t) -> (reg_accepts t <-> wf_table t).
+Proof.
+  intros Hn Hef. split; [|apply wf_table_accepted]. intros Hacc.
+  apply (registration_enforces_wf init_state t None [] eq_refl (Forall_nil _) Hn Hef).
+  destruct (start_outcome init_state t None [] eq_refl (Forall_nil _) Hn) as [E | (s' & E & _)].
+  - apply (start_assert_iff init_state t None [] eq_refl (Forall_nil _) Hn) in E. unfold reg_accepts in Hacc. congruence.
+  - exists s'. exact E.
+Qed.
+
 (* ---------------- non-vacuity ---------------- *)
 Definition s_b : str := [45; 98]%N.                     (* "-b" *)
 Definition s_f : str := [45; 102]%N.                    (* "-f" *)
@@ -730,3 +1060,44 @@ Example ex_refused :
   run_model [Some ([45; 45]%N, false)] None [[112]]%N = AssertFail /\
   run_model [Some ([45; 97; 98]%N, false)] None [[112]]%N = AssertFail.
 Proof. repeat split; vm_compute; reflexivity. Qed.
+
+(* the option set of ex_table as a switch statement with the first label on the GETOPT_SWITCH line
+   (slot 0), a blank line, and GETOPT_MISSING_ARG between the labels *)
+Definition ex_layout : layout :=
+  [LOpt s_b false; LOpt s_bar false; LNone; LMiss; LOpt s_f true; LOpt s_foo true].
+
+Example ex_layout_wf : wf_table (table_of ex_layout) /\ miss_of ex_layout = Some 3.
+Proof.
+  split; [split|reflexivity].
+  - cbn [ex_layout table_of map names flat_map app]. repeat (constructor; [name_ok_tac|]). constructor.
+  - cbn [ex_layout table_of map names flat_map app]. repeat (constructor; [cbn; intuition discriminate|]). constructor.
+Qed.
+
+Example ex_layout_run :
+  run_switch ex_layout ex_argv =
+  Ok ([Opt s_b; Opt s_b; OptArg s_f [98; 97; 114]%N; OptArg s_foo [120]%N; Default s_bar;
+       OptArg s_f [45; 45]%N; Opt s_b], 7).
+Proof. vm_compute. reflexivity. Qed.
+
+(* without the probe of the line before the switch: a label on the GETOPT_SWITCH line aborts, and a
+   GETOPT_MISSING_ARG there is silently overwritten by the later getopt_setrange *)
+Example ex_first_probe :
+  index_pass_gen false (after_reset init_state) ex_layout = AssertFail /\
+  (exists s, index_pass (after_reset init_state) ex_layout = Ok s) /\
+  match index_pass_gen false (after_reset init_state) [LMiss; LNone; LOpt s_f true] with
+  | Ok s => g_missing s = g_default s
+  | _ => False
+  end /\
+  match index_pass (after_reset init_state) [LMiss; LNone; LOpt s_f true] with
+  | Ok s => g_missing s = 0 /\ g_default s = 4
+  | _ => False
+  end.
+Proof.
+  split; [reflexivity|]. split; [eexists; vm_compute; reflexivity|]. split; vm_compute; [reflexivity | split; reflexivity].
+Qed.
+
+(* a table with '=' inside a name that the registration pass accepts, and two it refuses *)
+Example ex_reg_accepts :
+  reg_accepts ex_eq_table /\ ~ reg_accepts [Some ([45; 45; 97]%N, true); Some ([45; 45; 97; 61; 98]%N, false)] /\
+  ~ reg_accepts [Some (s_b, false); None; Some (s_b, true)].
+Proof. repeat split; vm_compute; discriminate. Qed.
